@@ -156,8 +156,13 @@ def conditions(tier):
             sk = sk.replace('?', '\x00', 1).replace('?', 'x').replace('\x00', '?') if sk.count('?') > 1 else sk
         for o in (['default'] if quick else ['default', 'verb_strict', 'remove_source']):
             pre = ['len(s) == %d' % len(sk)] + ['s[%d] == chr(%d)' % (i, ord(ch)) for i, ch in enumerate(sk) if ch != '?']
-            conds.append(Cond('skel_%s_%s' % (nm, o), 's: str', pre, 'body_total(s, %r)' % o, timeout=T, cost=3, twin=False,
-                              smoke=[dict(s=sk.replace('?', c)) for c in ('x', '{', '}', '$', BS)]))
+            heavy = quick and nm in ('frac', 'mat', 'acc', 'sqrt')
+            for tag, ppre in (ord_partition('s', sk.index('?'), (48, 92, 93, 128)) if heavy else [('', None)]):
+                # the four families whose rendering inspects the content: the free character is split by code point
+                # (disjoint, covering) so that each part finishes within the quick budget
+                conds.append(Cond('skel_%s_%s%s' % (nm, o, ('_' + tag) if tag else ''), 's: str', pre + ([ppre] if ppre else []),
+                                  'body_total(s, %r)' % o, timeout=T, cost=3, twin=False,
+                                  smoke=[dict(s=sk.replace('?', c)) for c in ('x', '{', '}', '$', BS)] if not tag else []))
     # name sweep: every macro / environment name of both default databases (selector = symbolic integer)
     if quick:
         step = 16
